@@ -3,12 +3,12 @@
 # Usage: tools/mutants.sh [id-dir ...]   (default: all of seeded/*)
 cd /verif
 if [ -n "$(git -C /repo status --porcelain --untracked-files=no)" ]; then echo "refusing: /repo has uncommitted changes (they would be lost)"; exit 2; fi
-dirs=("$@"); [ ${#dirs[@]} -eq 0 ] && dirs=(seeded/*)
+dirs=("$@"); full=""; [ ${#dirs[@]} -eq 0 ] && { dirs=(seeded/*/); full=1; : > seeded/RESULTS.txt; echo "# tools/mutants.sh on /repo $(git -C /repo log --format=%h -1), /verif $(git log --format=%h -1), tier ${TIER:-quick}" >> seeded/RESULTS.txt; }
 for d in "${dirs[@]}"; do
   d=${d%/}; [ -f "$d/patch.diff" ] || continue
   prop=$(python3 -c "import json,sys;print(json.load(open('$d/meta.json'))['property'])")
   if ! git -C /repo apply --check "$PWD/$d/patch.diff" 2>/dev/null; then
-    if false; then :; else echo "$d ($prop): PATCH DOES NOT APPLY"; git -C /repo reset -q --hard HEAD; continue; fi
+    if false; then :; else echo "$d ($prop): PATCH DOES NOT APPLY"; [ -n "$full" ] && echo "$d ($prop): PATCH DOES NOT APPLY (see meta.json)" >> seeded/RESULTS.txt; git -C /repo reset -q --hard HEAD; continue; fi
   else
     git -C /repo apply "$PWD/$d/patch.diff"
   fi
@@ -17,7 +17,8 @@ for d in "${dirs[@]}"; do
   out=$(timeout 1200 bin/verif check $prop --tier ${TIER:-quick} 2>&1); rc=$?
   [ -f /tmp/.mut_evidence_$prop.json ] && mv /tmp/.mut_evidence_$prop.json evidence/$prop.json
   v=$(echo "$out" | grep -c "^VIOLATION")
-  echo "$d ($prop): exit=$rc violations=$v $(echo "$out" | grep -m1 "^  harness=" )"
+  line="$d ($prop): exit=$rc violations=$v $(echo "$out" | grep -m1 "^  harness=" | cut -c1-260)"
+  echo "$line"; [ -n "$full" ] && echo "$line" >> seeded/RESULTS.txt
   [ -n "$VERBOSE" ] && echo "$out" | tail -15
   git -C /repo reset -q --hard HEAD
 done
